@@ -39,9 +39,13 @@ type c17Cmd struct {
 }
 
 type c17Task struct {
-	Name string
-	Cmds []c17Cmd
+	Name  string
+	Cmds  []c17Cmd
+	Calls []string // values of V with which the task is called in parallel ("" = called once, without V)
 }
+
+// inst replaces the call marker in a chunk text.
+func c17Inst(text, v string) string { return strings.ReplaceAll(text, "@V@", v) }
 
 type c17Prog struct {
 	Tasks     []c17Task
@@ -52,7 +56,7 @@ type c17Prog struct {
 	Parallel  bool // --parallel roots instead of deps of one task
 }
 
-func shq(s string) string { return "'" + strings.ReplaceAll(s, "'", `'\''`) + "'" }
+func shq(s string) string  { return "'" + strings.ReplaceAll(s, "'", `'\''`) + "'" }
 func ymlq(s string) string { return "'" + strings.ReplaceAll(s, "'", "''") + "'" }
 
 func (p *c17Prog) render() string {
@@ -78,7 +82,13 @@ func (p *c17Prog) render() string {
 	}
 	b.WriteString("tasks:\n  all:\n    deps:\n")
 	for _, t := range p.Tasks {
-		fmt.Fprintf(&b, "      - %s\n", t.Name)
+		for _, v := range t.Calls {
+			if v == "" {
+				fmt.Fprintf(&b, "      - %s\n", t.Name)
+			} else {
+				fmt.Fprintf(&b, "      - task: %s\n        vars: {V: %s}\n", t.Name, v)
+			}
+		}
 	}
 	for _, t := range p.Tasks {
 		fmt.Fprintf(&b, "  %s:\n    cmds:\n", t.Name)
@@ -87,7 +97,7 @@ func (p *c17Prog) render() string {
 			for _, ch := range c.Chunks {
 				// the text holds no '%' or backslash; newlines travel as printf escapes (a literal
 				// newline inside a YAML quoted scalar would be folded into a space)
-				s := "printf " + shq(strings.ReplaceAll(ch.Text, "\n", `\n`))
+				s := "printf " + shq(strings.ReplaceAll(strings.ReplaceAll(ch.Text, "\n", `\n`), "@V@", "{{.V}}"))
 				if ch.Stderr {
 					s += " >&2"
 				}
@@ -119,7 +129,11 @@ func c17Generate(rng *rand.Rand, mode string) *c17Prog {
 		nt = 2 + rng.Intn(6)
 	}
 	for i := 0; i < nt; i++ {
-		t := c17Task{Name: fmt.Sprintf("t%d", i)}
+		t := c17Task{Name: fmt.Sprintf("t%d", i), Calls: []string{""}}
+		if !p.Parallel && rng.Intn(3) == 0 {
+			// the same task (hence the same prefix) called two or three times at once with different variables
+			t.Calls = []string{"a", "b", "c"}[:2+rng.Intn(2)]
+		}
 		nc := 1 + rng.Intn(2)
 		if mode == "prefixed" {
 			nc = 1 + rng.Intn(3)
@@ -132,6 +146,9 @@ func c17Generate(rng *rand.Rand, mode string) *c17Prog {
 			}
 			for k := 0; k < n; k++ {
 				text := fmt.Sprintf("%s#%d|", c.ID, k)
+				if len(t.Calls) > 1 {
+					text = fmt.Sprintf("%s@V@#%d|", c.ID, k)
+				}
 				switch rng.Intn(8) {
 				case 0, 1, 2:
 					text += "\n"
@@ -174,20 +191,22 @@ func (c *c17Cmd) body() string {
 func (p *c17Prog) expectedBlocks() []string {
 	var out []string
 	for _, t := range p.Tasks {
-		for _, c := range t.Cmds {
-			body := c.body()
-			if body == "" || (p.ErrorOnly && !c.Fail) {
-				continue
+		for _, v := range t.Calls {
+			for _, c := range t.Cmds {
+				body := c17Inst(c.body(), v)
+				if body == "" || (p.ErrorOnly && !c.Fail) {
+					continue
+				}
+				s := ""
+				if p.Begin {
+					s += "<<B " + t.Name + ">>\n"
+				}
+				s += body
+				if p.End {
+					s += "<<E " + t.Name + ">>\n"
+				}
+				out = append(out, s)
 			}
-			s := ""
-			if p.Begin {
-				s += "<<B " + t.Name + ">>\n"
-			}
-			s += body
-			if p.End {
-				s += "<<E " + t.Name + ">>\n"
-			}
-			out = append(out, s)
 		}
 	}
 	return out
@@ -197,17 +216,19 @@ func (p *c17Prog) expectedBlocks() []string {
 func (p *c17Prog) expectedLines() []string {
 	var out []string
 	for _, t := range p.Tasks {
-		for _, c := range t.Cmds {
-			body := c.body()
-			for body != "" {
-				i := strings.IndexByte(body, '\n')
-				var line string
-				if i < 0 {
-					line, body = body, ""
-				} else {
-					line, body = body[:i], body[i+1:]
+		for _, v := range t.Calls {
+			for _, c := range t.Cmds {
+				body := c17Inst(c.body(), v)
+				for body != "" {
+					i := strings.IndexByte(body, '\n')
+					var line string
+					if i < 0 {
+						line, body = body, ""
+					} else {
+						line, body = body[:i], body[i+1:]
+					}
+					out = append(out, "["+t.Name+"] "+line+"\n")
 				}
-				out = append(out, "["+t.Name+"] "+line+"\n")
 			}
 		}
 	}
@@ -217,10 +238,12 @@ func (p *c17Prog) expectedLines() []string {
 func (p *c17Prog) chunkTexts() []string {
 	var out []string
 	for _, t := range p.Tasks {
-		for _, c := range t.Cmds {
-			for _, ch := range c.Chunks {
-				if strings.Contains(ch.Text, "#") {
-					out = append(out, strings.TrimRight(ch.Text, "\n"))
+		for _, v := range t.Calls {
+			for _, c := range t.Cmds {
+				for _, ch := range c.Chunks {
+					if strings.Contains(ch.Text, "#") {
+						out = append(out, strings.TrimRight(c17Inst(ch.Text, v), "\n"))
+					}
 				}
 			}
 		}
@@ -261,24 +284,26 @@ func (p *c17Prog) judgeGroup(stream string) *c17Verdict {
 	lost, dup := 0, 0
 	shown := map[string]bool{}
 	for _, t := range p.Tasks {
-		for _, c := range t.Cmds {
-			want := 1
-			if c.body() == "" || (p.ErrorOnly && !c.Fail) {
-				want = 0
-			}
-			for _, ch := range c.Chunks {
-				if !strings.Contains(ch.Text, "#") {
-					continue
+		for _, v := range t.Calls {
+			for _, c := range t.Cmds {
+				want := 1
+				if c.body() == "" || (p.ErrorOnly && !c.Fail) {
+					want = 0
 				}
-				key := strings.TrimRight(ch.Text, "\n")
-				n := strings.Count(stream, key)
-				if n < want {
-					lost++
-				}
-				if n > want {
-					dup++
-					if want == 0 {
-						shown[c.ID] = true
+				for _, ch := range c.Chunks {
+					if !strings.Contains(ch.Text, "#") {
+						continue
+					}
+					key := strings.TrimRight(c17Inst(ch.Text, v), "\n")
+					n := strings.Count(stream, key)
+					if n < want {
+						lost++
+					}
+					if n > want {
+						dup++
+						if want == 0 {
+							shown[c.ID] = true
+						}
 					}
 				}
 			}
